@@ -70,7 +70,7 @@ def gen_bytes(rng, lo=0, hi=12, no_pct=False):
         out.append(b)
     return bytes(out)
 
-# ---- arguments: ('i', v) ('f', bits) ('s', bytes) ('A'|'U'|'L', [args]) --------------------------------------------
+# ---- arguments: ('i', v) ('f', bits) ('s', bytes) ('A'|'U'|'L', [args]) ... ('Y', type name) ------------------------
 def gen_scalar(rng, kind=None):
     kind = kind or rng.choice('ifs')
     if kind == 'i': return ('i', gen_int(rng))
@@ -122,8 +122,21 @@ def gen_obj(rng, depth=2, wide=True):
     if r < 0.87:
         k = rng.choice('ifs'); return ('C', [gen_scalar(rng, k) for _ in range(rng.randrange(0, 5))])
     if r < 0.93: return ('X', gen_obj(rng, depth - 1) if rng.random() < 0.8 else None)
-    if r < 0.96: return ('N', None)
+    if r < 0.95: return ('N', None)
+    if r < 0.975: return ('Y', rng.choice(TYPE_NAMES))          # a Type object: Type_Show prints its name and returns the new position (fix 0046a69)
     return ('O', rng.choice([b'File', b'Ref', b'NoShow']))
+
+def gen_type_obj(rng):
+    """a Type object, bare or inside Tuples / Boxes (first, in the middle, last), so that text follows it at a position > 0"""
+    y = ('Y', rng.choice(TYPE_NAMES))
+    r = rng.random()
+    if r < 0.4: return y
+    if r < 0.55: return ('X', y)
+    items = [gen_obj(rng, 1) for _ in range(rng.randrange(0, 3))]
+    items.insert(rng.randrange(0, len(items) + 1), y)
+    if rng.random() < 0.3: items.insert(rng.randrange(0, len(items) + 1), ('X', ('Y', rng.choice(TYPE_NAMES))))
+    u = ('U', items)
+    return u if r < 0.9 else ('X', u)
 
 def arg_tokens(a):
     k, v = a
@@ -345,6 +358,27 @@ def adjacency_ops(rng):
             ops.append(make_op(segs, args, old, start))
     return ops
 
+def type_show_ops(rng):
+    """%$ on Type objects at every position of a format: all sequences of up to 3 segments out of literal / %% / %$ on a Type / %d / %$ on a Tuple
+    holding a Type, on every start position of a short old String (formerly the territory of KF-C14-type-show)"""
+    ops = []
+    kinds = ['lit', 'pct', 'Y', 'd', 'UY']
+    for n in range(1, 4):
+        for combo in itertools.product(kinds, repeat=n):
+            if 'Y' not in combo and 'UY' not in combo: continue
+            segs = []; args = []
+            for k in combo:
+                if k == 'lit': segs.append(('lit', gen_bytes(rng, 1, 4, no_pct=True)))
+                elif k == 'pct': segs.append(('pct',))
+                elif k == 'd': segs.append(('spec', '', 'd')); args.append(('i', gen_int(rng)))
+                elif k == 'Y': segs.append(('spec', '', '$')); args.append(('Y', rng.choice(TYPE_NAMES)))
+                else: segs.append(('spec', '', '$')); args.append(('U', [('i', gen_int(rng)), ('Y', rng.choice(TYPE_NAMES)), ('s', gen_bytes(rng, 0, 4))]))
+            if any(a[0] == 'lit' and b[0] == 'lit' for a, b in zip(segs, segs[1:])): continue
+            old = gen_bytes(rng, 0, 9)
+            for start in sorted({0, len(old) // 2, len(old)}):
+                ops.append(make_op(segs, args, old, start))
+    return ops
+
 MALFORMED = [b'%', b'%5', b'%-', b'%l', b'%.3', b'abc%', b'abc%5', b'x%ll', b'%%%', b'ab%%%', b'%d%', b'%d %', b'%#08.3l', b'%hh',
              b'%5%', b'%z', b'a%', b'%\xc3']
 
@@ -367,25 +401,28 @@ class C14(Spec):
                   'exactly when a specification has no argument or libc rejects one of the calls (off < 0; C14_too_few), leaves String and File as the prefix left them on '
                   'a rejected call (C14_reject_unchanged, tied to the position of `if (size < 0) { return size; }` in String_Format_To read from the source), reads only indices <= strlen(fmt) and writes only fmt_buf indices <= strlen(fmt); '
                   'for every format the returned position is start + the characters written, the String sink is old[0..start) ++ text and the '
-                  'File sink gets the same text from the same primitive calls (for arguments that are not the destination itself and reach no Type object: plainArgs; '
-                  'the excluded region is exhibited by C14_alias_refuted / C14_type_show_position_refuted); %$ on Tuple/Array/List/Table/Tree/Range/Slice/Box/NULL/objects '
-                  'without Show writes each element\'s own show text once, in iteration order, between the texts read from the source (C14_show_containers, C14_show_more). '
+                  'File sink gets the same text from the same primitive calls (for arguments that are not the destination itself and do not reach it: plainArgs; '
+                  'the excluded region is exhibited by C14_alias_refuted); %$ on Tuple/Array/List/Table/Tree/Range/Slice/Box/NULL/objects '
+                  'without Show writes each element\'s own show text once, in iteration order, between the texts read from the source (C14_show_containers, C14_show_more); '
+                  '%$ on a Type object is one %s call with its name and the position goes on after it (C14_type_show_position, tied to the form of Type_Show read from the source: '
+                  'C14_type_show_returns_position; the OLD form, fixed by 0046a69, is exhibited by C14_type_show_old_refuted). '
                   'What libc prints for one specification is a parameter (trusted). '
                   'The model is tied to the code by regenerating the scan set / dispatch / show formats / function text from /repo every run and by '
                   'running thousands of generated formats on the real print_to_with (recording sink, String, File) and on the model.')
-    level_note = ('Known findings KF-C14-alias and KF-C14-type-show are modelled and excluded by an explicit decidable hypothesis. Trusted: Lean kernel; libc vsnprintf/vsprintf/vfprintf for one specification (the parameter `libc`: text and rejection) and that a whole-format printf equals '
+    level_note = ('Known finding KF-C14-alias is modelled and excluded by an explicit decidable hypothesis (plainArgs); the former finding KF-C14-type-show is fixed (0046a69) and its territory is covered by the theorems and generated. Trusted: Lean kernel; libc vsnprintf/vsprintf/vfprintf for one specification (the parameter `libc`: text and rejection) and that a whole-format printf equals '
                   'the concatenation of its specifications; translate/g_fmt.py; harness/driver comparison (testing). Known finding F29 (partial output '
                   'before FormatError) is modelled and proved as C14_unchanged_on_error_refuted. Malformed tails ("...%") leave the buffers: modelled (oob), outside the property.')
     rule = ('op = one print_to_with call (format, arguments, old sink content, start position) executed on a recording sink, a String and a File. '
             'Formats: (a) lattice of every conversion x length modifier x 32 flag sets x 3 widths x 4 precisions at boundary values, '
             '(b) every sequence of up to 4 segment kinds (literal, %%, integer, string, %$) so that specifications occur first, last and adjacent, '
             '(c) random formats of up to 8 segments (literal bytes 1..255, %%, specifications with flags/width/precision/length) with Int over the full '
-            'int64 range, Float over all bit patterns, String bytes 1..255, %$ on Int/Float/String/Array/List/Tuple/Table/Tree/Range/Slice/Box/NULL/objects without Show '
+            'int64 range, Float over all bit patterns, String bytes 1..255, %$ on Int/Float/String/Array/List/Tuple/Table/Tree/Range/Slice/Box/NULL/objects without Show/Type objects '
             '(nested; Tables with colliding, negative and repeated keys; Ranges in both directions), too few / too many / wrong-class / NULL '
             'arguments, start positions 0..len(old), (d) formats outside the grammar run in a forked child (does the code leave its buffers?), '
             '(e) formats with a specification libc REJECTS (%lc with a value outside 0..127 in the "C" locale, widths/precisions >= 2^31) as the only segment, '
             'first, in the middle and last, after prefixes that are written (literal, %%, accepted specifications incl. accepted %lc), with a second rejected one later, '
-            'with too few / wrong-class arguments before it; each on the recording sink, a String and a File, in a forked child (op J). '
+            'with too few / wrong-class arguments before it; each on the recording sink, a String and a File, in a forked child (op J), '
+            '(g) %$ on Type objects (bare, inside Tuples and Boxes) in every sequence of up to 3 segments out of literal / %% / %d / %$, at start positions 0, middle and end of the old String. '
             'non-trivial = the format has at least one argument-consuming specification; distinct = distinct op text.')
     trusted_base = ('translate/g_fmt.py (regex over src/Show.c print_to_with / show_to, String_Format_To, File_Format_To and the Show functions of Num.c, String.c, Array.c, Tuple.c, List.c, Table.c, Tree.c, Iter.c, Pointer.c, Type.c)',
                     'lean/Cello/Table.lean (C02 model: slot order of a Table, used by the driver only) and lean/Cello/Iter.lean (C11 model: values of a Range, driver only)',
@@ -402,8 +439,6 @@ class C14(Spec):
                    'on too few arguments only the exception is checked by the oracle: the partial output (F29) is a known finding, checked by op K only',
                    'no argument (at any depth) is the destination String itself: print_to(s, pos, "%s" / "%$", s) reads the buffer it reallocates — known finding '
                    'KF-C14-alias, modelled (outcome oob), theorem C14_alias_refuted, witness corpus/kf_c14_alias.ops; the theorems carry the decidable hypothesis plainArgs',
-                   'no Type object is shown by %$: Type_Show returns a length instead of a position — known finding KF-C14-type-show, modelled, theorem '
-                   'C14_type_show_position_refuted, witness corpus/kf_c14_type_show.ops (a Type object as %s / %p argument is generated)',
                    'Table / Tree arguments have Int keys and scalar values (iteration order of the Table taken from the C02 model Cello/Table.lean, of the Tree = descending keys); '
                    'Slices are whole-Array slices; Exception_Show and GC_Show are not modelled')
     def cases(self, rng, tier, boost=1):
@@ -441,12 +476,13 @@ class C14(Spec):
                 m.append(make_M(f, [gen_scalar(rng, rng.choice('fs')) for _ in range(rng.randrange(0, 3))], b'', 0))
         cs.append(Case('outside', m))
         # (f) %$ on every kind of object that has a Show instance or falls to show_to's other arms: Table / Tree (colliding, negative, repeated keys),
-        #     Range (both directions, empty, step 0), Slice, Box (full, empty, nested), NULL, objects without Show — alone, nested in Tuples, between other segments
+        #     Range (both directions, empty, step 0), Slice, Box (full, empty, nested), NULL, objects without Show, Type objects (alone, several in a row,
+        #     inside Tuples and Boxes, at start positions > 0: fix 0046a69) — alone, nested in Tuples, between other segments
         nshow = (1500 if quick else 40000) * boost
         lines = []
         for i in range(nshow):
-            k = i % 8
-            a = (('H', gen_pairs(rng)) if k == 0 else ('R', gen_pairs(rng)) if k == 1 else gen_range(rng) if k == 2 else
+            k = i % 9
+            a = (gen_type_obj(rng) if k == 8 else ('H', gen_pairs(rng)) if k == 0 else ('R', gen_pairs(rng)) if k == 1 else gen_range(rng) if k == 2 else
                  ('C', [gen_scalar(rng, 'ifs'[i % 3]) for _ in range(rng.randrange(0, 5))]) if k == 3 else
                  ('X', gen_obj(rng, 2) if i % 5 else None) if k == 4 else
                  rng.choice([('N', None), ('O', b'File'), ('O', b'Ref'), ('O', b'NoShow')]) if k == 5 else
@@ -458,6 +494,8 @@ class C14(Spec):
             old, start = gen_old_start(rng)
             lines.append(make_op(segs, args, old, start))
         for i, ch in enumerate(chunks(lines, 500 if quick else 2000)): cs.append(Case(f'show{i}', ch))
+        # (g) %$ on Type objects at every position
+        for i, ch in enumerate(chunks(type_show_ops(rng), 400)): cs.append(Case(f'typeshow{i}', ch))
         # (e) specifications libc rejects (negative result -> FormatError, sinks as the prefix left them), forked (op J)
         nrej = (1600 if quick else 24000) * boost
         lines = [gen_reject_op(rng, ('start', 'mid', 'end', 'only')[i % 4] if i % 5 else rng.choice(['start', 'mid', 'end'])) for i in range(nrej)]
